@@ -55,6 +55,7 @@ pub tracked struct QCtx {
     pub ghost unparked: bool,       // WakeThread: unpark() was called
     pub ghost ran: nat,             // number of times a job / closure was entered by this thread
     pub ghost appends: nat,         // number of append sections performed by this thread
+    pub ghost kicks: nat,           // number of times this thread pushed the queue on the schedule and then called schedule_thread
     pub ghost log: Seq<Sec>,
     pub ghost v_order: bool,        // every queue effect so far kept the FIFO discipline
     pub ghost v_conserve: bool,     // ... and neither lost nor duplicated a job
@@ -67,7 +68,7 @@ pub open spec fn valid(c: QCtx) -> bool { c.v_order && c.v_conserve && c.v_state
 /// the context of a thread that is not involved with the queue
 pub open spec fn fresh(c: QCtx) -> bool {
     !c.holds && !c.parked && c.current is None && !c.debt_idle && !c.debt_pending && !c.latching && !c.latch_parked
-    && !c.unparked && c.ran == 0 && c.appends == 0 && c.log.len() == 0 && valid(c)
+    && !c.unparked && c.ran == 0 && c.appends == 0 && c.kicks == 0 && c.log.len() == 0 && valid(c)
 }
 pub open spec fn log_extends(new: Seq<Sec>, old: Seq<Sec>) -> bool {
     old.len() <= new.len() && forall|i: int| 0 <= i < old.len() ==> new[i] == old[i]
@@ -75,9 +76,13 @@ pub open spec fn log_extends(new: Seq<Sec>, old: Seq<Sec>) -> bool {
 /// frame: what every function under contract preserves of the caller's context
 pub open spec fn kept(n: QCtx, o: QCtx) -> bool {
     n.nonblocking == o.nonblocking && n.latching == o.latching && n.latch_parked == o.latch_parked && log_extends(n.log, o.log)
-    && n.appends >= o.appends && n.ran >= o.ran
+    && n.appends >= o.appends && n.ran >= o.ran && n.kicks >= o.kicks
 }
 pub open spec fn kept_counts(n: QCtx, o: QCtx) -> bool { kept(n, o) && n.appends == o.appends && n.ran == o.ran && n.unparked == o.unparked }
+/// effect of schedule_thread on the caller's queue context: a push followed by the call pays the pending debt and counts as a kick
+pub open spec fn after_schedule_thread(o: QCtx, appended: nat) -> QCtx {
+    if appended == 0 { o } else { QCtx { debt_pending: false, kicks: o.kicks + 1, ..o } }
+}
 /// a thread that neither owns the queue nor owes it anything
 pub open spec fn outsider(c: QCtx) -> bool { !c.holds && !c.parked && c.current is None && paid(c) && valid(c) && !c.latching && !c.latch_parked }
 /// the first critical section a function performed on the queue core
